@@ -125,6 +125,8 @@ class VG(object):
                 y = struct.unpack('>f', struct.pack('>f', x))[0]
             except OverflowError:
                 y = float('inf') if x > 0 else float('-inf')
+            if y == 0.0 and not self.cfg.neg_zero:
+                y = 0.0         # rounding a tiny negative number to binary32 must not smuggle in minus zero
             return y
         r = self.d(st.integers(0, 99))
         if r < 50:
